@@ -21,7 +21,7 @@ fn with_rng<T: Out>(bytes: &str, f: impl FnOnce(&mut Script) -> T) -> String {
     let mut rng = Script { data: parse_bytes(bytes), pos: 0 };
     let r = std::panic::catch_unwind(std::panic::AssertUnwindSafe(|| f(&mut rng)));
     match r {
-        Ok(x) => format!("S({})@{}", x.out(), rng.pos),
+        Ok(x) => { let o = x.out(); if o.starts_with('[') { format!("{}@{}", o, rng.pos) } else { format!("S({})@{}", o, rng.pos) } }
         Err(e) => if e.is::<Exhausted>() { "exhausted".into() } else { "P".into() },
     }
 }
